@@ -98,8 +98,9 @@ Section C04.
 
   Theorem no_downgrade_tls12_resumption_ideal : forall a1 a2 a3 c s,
     o_c (R12r a1 a2 a3) = Some c -> o_s (R12r a1 a2 a3) = Some s -> unforgeable fin (R12r a1 a2 a3) ->
-    exists v k, sel_version smin smax c_hello = SelOk v /\ scsv_hit smax v c_hello = false /\
-      s_resume v c_hello = Some (e_sh c, k) /\ e_sh s = e_sh c /\ e_ch s = c_hello.
+    exists v sh0 k, sel_version smin smax c_hello = SelOk v /\ scsv_hit smax v c_hello = false /\
+      s_resume v c_hello = Some (sh0, k) /\
+      e_sh c = set_tail sh0 (sentinel_for smax v (sh_tail sh0)) /\ e_sh s = e_sh c /\ e_ch s = c_hello.
   Proof. exact (run12r_no_downgrade hash fin prf_of suite_ok cmin cmax smin smax c_hello s_ch_ok c_extra_ok
                                     s_resume c_sess_key H_ideal_hash H_ideal_prf). Qed.
 
@@ -112,14 +113,22 @@ Section C04.
                                    H_ideal_hash H_ideal_prf). Qed.
 
   (* ---- downgrade sentinel: NO idealisation, NO hypothesis on the attacker -------------- *)
-  (* full handshake: a server that completes selected v and wrote the RFC 8446 4.1.3 value *)
-  Theorem sentinel_written : forall a1 a2 a3 a4 s,
-    o_s (R12 a1 a2 a3 a4) = Some s ->
-    exists v, sel_version smin smax (e_ch s) = SelOk v /\
-      (v < TLS12 -> smax >= TLS12 -> sh_tail (e_sh s) = 1) /\
-      (v = TLS12 -> smax > TLS12 -> sh_tail (e_sh s) = 2).
-  Proof. exact (run12_sentinel_written hash fin prf_of suite_ok cmin cmax smin smax c_hello s_ch_ok s_reply12 c_extra_ok
-                                       c_flight12 s_flight_ok c_flight_ok s_nst c_key s_key). Qed.
+  (* full AND abbreviated handshake: a server that completes selected v and wrote the RFC 8446 4.1.3
+     value into its ServerHello.  (Before /repo commit 9a5e0f9 the resumed ServerHello was built with
+     getRandomBytes(32) only; this statement was then refuted for run12r by
+     sentinel_written_resumption_refuted -- witness: TLS-1.3-capable server resuming at TLS 1.2 -- and the
+     live scenario srv13-resume12 showed it on the code.) *)
+  Theorem sentinel_written :
+    (forall a1 a2 a3 a4 s, o_s (R12 a1 a2 a3 a4) = Some s ->
+       exists v, sel_version smin smax (e_ch s) = SelOk v /\
+         (v < TLS12 -> smax >= TLS12 -> sh_tail (e_sh s) = 1) /\
+         (v = TLS12 -> smax > TLS12 -> sh_tail (e_sh s) = 2)) /\
+    (forall a1 a2 a3 s, o_s (R12r a1 a2 a3) = Some s ->
+       exists v, sel_version smin smax (e_ch s) = SelOk v /\
+         (v < TLS12 -> smax >= TLS12 -> sh_tail (e_sh s) = 1) /\
+         (v = TLS12 -> smax > TLS12 -> sh_tail (e_sh s) = 2)).
+  Proof. exact (sentinel_written_all hash fin prf_of suite_ok cmin cmax smin smax c_hello s_ch_ok s_reply12 c_extra_ok
+                                     c_flight12 s_flight_ok c_flight_ok s_nst c_key s_key s_resume c_sess_key). Qed.
 
   (* a client that completes -- in any flow, whatever the attacker and the primitives do -- holds
      a ServerHello on which the sentinel test is negative *)
@@ -146,14 +155,6 @@ Section C04.
                                   c_flight12 s_flight_ok c_flight_ok s_nst c_key s_key s_resume c_sess_key
                                   s_hrr c_hello2 s_reply13 c_psk_keys c_flight13 psk_alg). Qed.
 End C04.
-
-(* the sentinel is NOT written into the ServerHello of an abbreviated handshake (tlsconnection.py
-   4042-4046 uses getRandomBytes(32) directly): the statement of sentinel_written is false of the
-   faithful model of resumption.  Witness: a TLS-1.3-capable server resuming at TLS 1.2. *)
-Theorem sentinel_written_resumption_refuted :
-  exists s, o_s (ex_run12r idf idf idf) = Some s /\
-    sel_version 769 772 (e_ch s) = SelOk TLS12 /\ 772 > TLS12 /\ sh_tail (e_sh s) <> 2.
-Proof. exact resumption_no_sentinel. Qed.
 
 (* ---- second ClientHello after HelloRetryRequest -------------------------------------------- *)
 (* the server goes on only if the second hello equals the first in everything outside the
@@ -184,8 +185,9 @@ Example tls12_full_completes_with_sentinel :
   option_map (fun e => sh_tail (e_sh e)) (o_s (ex_run12 idf idf idf idf)) = Some 2.
 Proof. exact ex12_ok. Qed.
 
-Example tls12_resumption_completes :
-  both_complete (ex_run12r idf idf idf) /\ unforgeable toy_fin (ex_run12r idf idf idf).
+Example tls12_resumption_completes_with_sentinel :
+  both_complete (ex_run12r idf idf idf) /\ unforgeable toy_fin (ex_run12r idf idf idf) /\
+  option_map (fun e => sh_tail (e_sh e)) (o_s (ex_run12r idf idf idf)) = Some 2.
 Proof. exact ex12r_ok. Qed.
 
 Example tls13_psk_with_and_without_hrr_completes : forall hrr,
